@@ -131,7 +131,7 @@ func main() {
 		stats[ck] = st
 		n := r.Pick(300, 5000)
 		if ck == ckStdio {
-			n = r.Pick(40, 400)
+			n = r.Pick(80, 400)
 		}
 		wg.Add(1)
 		go func(ck string, n int, st *judgeStats) {
@@ -165,6 +165,11 @@ func main() {
 		r.Count(p+"ops_failed_after_handshake", int64(st.opsFailedAfter))
 		r.Count(p+"healthy_initialize_failed_on_undamaged_client", int64(st.unexpectedInitFail))
 		r.Count(p+"roots_notification_sent_while_uninitialized", int64(st.d23))
+		r.Count(p+"server_deaths_injected", int64(st.srvDied))
+		r.Count(p+"server_deaths_while_initialized", int64(st.srvDiedInitialized))
+		r.Count(p+"close_after_server_death", int64(st.closeAfterDeath))
+		r.Count(p+"ops_after_server_death_not_judged", int64(st.opsAfterDeath))
+		r.Require(st.closeAfterDeath > 0, "client %s: no Close after the death of the server of an initialized client observed", ck)
 		r.Require(st.histories > 0 && st.initOK > 0, "client %s: no successful handshake observed (%d histories)", ck, st.histories)
 		r.Require(st.opsRefused > 0, "client %s: no refused operation observed", ck)
 		r.Require(st.secondInitRefused > 0, "client %s: no refused second handshake observed", ck)
